@@ -55,6 +55,9 @@ def cloud(rnd, n, mode):
     elif mode == "jitter":         # 1/8 lattice plus a random double: general position
         e = [rnd.randint(-16, 16) / 8 + rnd.uniform(-1, 1) / 32 for _ in range(n)]
         nn = [rnd.randint(-16, 16) / 8 + rnd.uniform(-1, 1) / 32 for _ in range(n)]
+    elif mode == "int":            # integer-valued: also passed with integer / float32 dtypes
+        e = [float(rnd.randint(-40, 40)) for _ in range(n)]
+        nn = [float(rnd.randint(-40, 40)) for _ in range(n)]
     elif mode == "far":            # large offsets: differences small relative to the coordinates
         e = [1000.0 + rnd.uniform(-2, 2) for _ in range(n)]
         nn = [-2000.0 + rnd.uniform(-2, 2) for _ in range(n)]
@@ -93,31 +96,130 @@ def reshape2(rnd, *arrs):
 
 
 # ---------------------------------------------------------------------------
+# presentations: the same logical values in another container / dtype / memory layout.
+# The model always receives the logical values (C order, as float64); results must not
+# depend on the presentation.
+# ---------------------------------------------------------------------------
+class _Fix:
+    def __init__(self, k):
+        self.k = k
+
+    def randrange(self, n):
+        return self.k % n
+
+
+def mk(values, tag):
+    """build the argument actually passed to verde from the logical values and a presentation tag:
+    'nd' | 'layout:<k>' | 'series:<index list>' | 'list' | 'tuple', optionally prefixed by a dtype 'int64+', 'int32+', 'float32+'"""
+    import pandas as pd
+    a = np.asarray(values, dtype=float)
+    if "+" in tag:
+        dt, tag = tag.split("+", 1)
+        a = a.astype(dt)
+    if tag == "nd":
+        return a
+    if tag.startswith("layout:"):
+        return core.relayout(a, _Fix(int(tag[7:])))
+    if tag.startswith("series:"):
+        return pd.Series(a, index=[int(x) for x in tag[7:].split(",")])
+    if tag == "list":
+        return a.tolist()
+    if tag == "tuple":
+        return tuple(a.tolist()) if a.ndim == 1 else tuple(tuple(r) for r in a.tolist())
+    raise ValueError(tag)
+
+
+def present(rnd, values, allow):
+    """choose a presentation allowed for this argument; returns (object, tag).
+    allow: subset of {'layout', 'series', 'list', 'dtype'}"""
+    a = np.asarray(values, dtype=float)
+    opts = ["nd"]
+    if "layout" in allow and a.ndim >= 1 and a.size > 1:
+        opts += ["layout"] * (3 if a.ndim >= 2 else 1)
+    if "series" in allow and a.ndim == 1:
+        opts += ["series-perm", "series-perm", "series-shift"]
+    if "list" in allow:
+        opts += ["list", "tuple"]
+    ch = rnd.choice(opts)
+    if ch == "layout":
+        tag = "layout:%d" % rnd.randrange(4)
+    elif ch == "series-perm":       # integer labels 0..n-1 in another order: a label lookup would read other rows
+        idx = list(range(a.size)); rnd.shuffle(idx)
+        tag = "series:" + ",".join(map(str, idx))
+    elif ch == "series-shift":      # integer labels that are not positions at all
+        off = rnd.choice([1, 5, -3, 100])
+        tag = "series:" + ",".join(str(i + off) for i in range(a.size))
+    else:
+        tag = ch
+    if "dtype" in allow and a.size and rnd.random() < 0.6:
+        dts = []
+        if np.all(a == np.round(a)) and np.all(np.abs(a) < 2 ** 30):
+            dts += ["int64", "int32"]
+        if np.all(a.astype(np.float32).astype(float) == a) and "nofloat32" not in allow:
+            dts += ["float32"]
+        if dts:
+            tag = rnd.choice(dts) + "+" + tag
+    return mk(a, tag), tag
+
+
+def presentall(rnd, arrays, allow):
+    objs, tags = [], []
+    for a in arrays:
+        o, t = present(rnd, a, allow)
+        objs.append(o); tags.append(t)
+    return objs, tags
+
+
+def rav(x):
+    """what verde's n_1d_arrays makes of an argument: 1-D, logical (C) order, dtype kept"""
+    return np.ravel(np.atleast_1d(x))
+
+
+# ---------------------------------------------------------------------------
 # KNeighbors
 # ---------------------------------------------------------------------------
-def knn_case(vd, de, dn, dv, qe, qn, combos, kind, extra=False):
-    """one cloud, one query set, several (reduction, k)"""
-    coords = (de, dn) + ((np.zeros_like(de) + 7.0,) if extra else ())
-    qcoords = (qe, qn) + ((np.zeros_like(qe) - 3.0,) if extra else ())
+def knn_case(vd, de, dn, dv, qe, qn, combos, kind, extra=False, rnd=None, reuse=False):
+    """one cloud, one query set, several (reduction, k).  With [rnd]: the arguments are passed in random
+    containers / dtypes / layouts.  With [reuse]: one instance is first fitted on other data and used, then
+    refitted, and predict is called twice - must equal a fresh instance (the model)."""
+    tags = {}
+    pde, pdn, pdv, pqe, pqn = de, dn, dv, qe, qn
+    if rnd is not None:
+        (pde, pdn), tf2 = presentall(rnd, (de, dn), ("layout", "series", "dtype"))
+        # float32 data values would make numpy reduce in float32 (2^-24 accuracy): integer dtypes only
+        (pdv,), tf1 = presentall(rnd, (dv,), ("layout", "series", "dtype", "nofloat32"))
+        tags["fit"] = tf2 + tf1
+        (pqe, pqn), tags["predict"] = presentall(rnd, (qe, qn), ("layout", "series", "list", "dtype"))
+    coords = (pde, pdn) + ((np.zeros(np.shape(de)) + 7.0,) if extra else ())
+    qcoords = (pqe, pqn) + ((np.zeros(np.shape(qe)) - 3.0,) if extra else ())
     shape_ok, obs, entries = True, [], []
     try:
         for red, k in combos:
             g = vd.KNeighbors(k=k, reduction=RED[red]) if red != "RMean" or k % 2 else vd.KNeighbors(k=k)
-            g.fit(coords, dv)
+            if reuse:       # another, larger, data set first
+                oe = np.linspace(-50.0, 50.0, np.size(de) + 3)
+                g.fit((oe, oe[::-1] * 0.5), np.arange(oe.size) * 1000.0)
+                g.predict(([0.0, 1.0], [0.0, 1.0]))
+            g.fit(coords, pdv)
             out = np.asarray(g.predict(qcoords))
-            shape_ok = shape_ok and out.shape == qe.shape
+            shape_ok = shape_ok and out.shape == np.shape(qe)
+            if reuse:
+                again = np.asarray(g.predict(qcoords))
+                shape_ok = shape_ok and again.shape == out.shape and bool(np.array_equal(again, out))
             obs.append({"reduction": red, "k": k, "prediction": fl(out.ravel())})
             entries.append("(%s, %s, %s)" % (red, cN(k), dl(out)))
         cobs = "(Some %s)" % clist(entries)
     except Exception as ex:  # noqa
         shape_ok, obs, cobs = False, "%s: %s" % (type(ex).__name__, ex), "None"
     term = "c15_knn %s %s %s %s %s %s %s" % (dl(de), dl(dn), dl(dv), dl(qe), dl(qn), cbool(shape_ok), cobs)
-    repro = ("import verde, numpy as np; c=(np.array(%r), np.array(%r)); d=np.array(%r); q=(np.array(%r), np.array(%r))\n"
+    tf, tp = tags.get("fit", ["nd"] * 3), tags.get("predict", ["nd"] * 2)
+    repro = ("import numpy as np, verde; from harness.c15 import mk\n"
+             "c=(mk(%r, %r), mk(%r, %r)); d=mk(%r, %r); q=(mk(%r, %r), mk(%r, %r))\n"
              "for red, k in %r: print(red, k, verde.KNeighbors(k=k, reduction={'RMean': np.mean, 'RMedian': np.median, 'RMin': np.min, 'RMax': np.max}[red]).fit(c, d).predict(q))"
-             % (fl(de), fl(dn), fl(dv), fl(qe), fl(qn), [list(c) for c in combos]))
+             % (fl(de), tf[0], fl(dn), tf[1], fl(dv), tf[2], fl(qe), tp[0], fl(qn), tp[1], [list(c) for c in combos]))
     return Case({"fn": "KNeighbors", "combos": [list(c) for c in combos], "easting": fl(de), "northing": fl(dn), "data": fl(dv),
-                 "query_easting": fl(qe), "query_northing": fl(qn), "extra_coords": extra},
-                {"predictions": obs, "shape_ok": shape_ok}, term, repro, kind)
+                 "query_easting": fl(qe), "query_northing": fl(qn), "extra_coords": extra, "presentation": tags, "reuse_instance": reuse},
+                {"predictions": obs, "shape_ok_and_repeatable": shape_ok}, term, repro, kind)
 
 
 def f32(a):
@@ -129,15 +231,19 @@ def gen_knn(vd, rnd, tier, cases):
     nclouds = 60 if tier == "quick" else 200
     reds = list(RED)
     for c in range(nclouds):
-        mode = ["jitter", "uniform", "jitter", "lattice", "uniform", "far"][c % 6]
+        mode = ["jitter", "uniform", "int", "lattice", "uniform", "far", "jitter"][c % 7]
         n = rnd.choice([3, 4, 5, 6, 7, 8, 9, 10, 12, 15]) if c % 10 else rnd.choice([20, 30])
         de, dn = cloud(rnd, n, mode)
         if n > 15 or c % 4 == 1:
             de, dn = f32(de), f32(dn)
         dv = np.array([rnd.choice([rnd.uniform(-100, 100), float(rnd.randint(-5, 5)), rnd.uniform(0, 1)]) for _ in range(n)])
+        if mode == "int" or c % 8 == 3:
+            dv = np.array([float(rnd.randint(-20, 20)) for _ in range(n)])
         m = rnd.randint(1, 12) if n <= 15 else rnd.randint(4, 8)
         qe, qn = queries(rnd, de, dn, m, mode)
-        if n > 15:
+        if mode == "int":
+            qe, qn = np.round(qe), np.round(qn)
+        if n > 15 or c % 4 == 1:
             qe, qn = f32(qe), f32(qn)
         if c % 2:
             qe, qn = reshape2(rnd, qe, qn)
@@ -146,7 +252,8 @@ def gen_knn(vd, rnd, tier, cases):
         extra = c % 5 == 0
         # every k = 1..n for each reduction (one case per reduction: the queries' keys are sorted once per case)
         for r in (reds if n <= 15 else [reds[c % 4], reds[(c + 1) % 4]]):
-            cases.append(knn_case(vd, de, dn, dv, qe, qn, [(r, k) for k in range(1, n + 1)], "knn-%s-%s" % (mode, r[1:].lower()), extra))
+            cases.append(knn_case(vd, de, dn, dv, qe, qn, [(r, k) for k in range(1, n + 1)], "knn-%s-%s" % (mode, r[1:].lower()), extra,
+                                  rnd=rnd, reuse=(c % 3 == 1)))
     # the number of queries equals k (a reduction along the wrong axis keeps the shape)
     for n in (3, 5):
         de, dn = cloud(rnd, n, "jitter")
@@ -169,31 +276,38 @@ PROJ = {
 }
 
 
-def meddist_case(vd, e, n, ks, pname, kind, extra=False):
-    coords = (e, n) + ((np.zeros_like(e) + 2.0,) if extra else ())
+def meddist_case(vd, e, n, ks, pname, kind, extra=False, rnd=None):
+    tags = ["nd", "nd"]
+    pe_, pn_ = e, n
+    if rnd is not None:
+        (pe_, pn_), tags = presentall(rnd, (e, n), ("layout", "series", "list", "dtype"))
+    coords = (pe_, pn_) + ((np.zeros(np.shape(e)) + 2.0,) if extra else ())
     proj = PROJ.get(pname)
     shape_ok, obs, entries = True, [], []
     try:
         for k in ks:
             out = np.asarray(vd.median_distance(coords, k_nearest=k, projection=proj))
-            shape_ok = shape_ok and out.shape == e.shape
+            shape_ok = shape_ok and out.shape == np.shape(e)
             obs.append({"k_nearest": k, "distances": fl(out.ravel())})
             entries.append("(%s, %s)" % (cN(k), dl(out)))
         cobs = "(Some %s)" % clist(entries)
     except Exception as ex:  # noqa
         shape_ok, obs, cobs = False, "%s: %s" % (type(ex).__name__, ex), "None"
-    pe, pn = (e.ravel(), n.ravel()) if proj is None else proj(e.ravel(), n.ravel())
+    # the projection sees what n_1d_arrays makes of the arguments (dtype kept): apply it to exactly that
+    pe, pn = (rav(e), rav(n)) if proj is None else proj(rav(pe_), rav(pn_))
     term = "c15_meddist %s %s %s %s" % (dl(pe), dl(pn), cbool(shape_ok), cobs)
-    repro = "import verde, numpy as np\nfor k in %r: print(k, verde.median_distance((np.array(%r), np.array(%r)), k_nearest=k))  # projection: %s" % (
-        list(ks), fl(e), fl(n), pname)
-    return Case({"fn": "median_distance", "k_nearest": list(ks), "easting": fl(e), "northing": fl(n), "projection": pname, "extra_coords": extra},
+    repro = ("import verde; from harness.c15 import mk, PROJ\nc=(mk(%r, %r), mk(%r, %r))\n"
+             "for k in %r: print(k, verde.median_distance(c, k_nearest=k, projection=PROJ.get(%r)))" % (
+                 fl(e), tags[0], fl(n), tags[1], list(ks), pname))
+    return Case({"fn": "median_distance", "k_nearest": list(ks), "easting": fl(e), "northing": fl(n), "projection": pname, "extra_coords": extra,
+                 "presentation": tags},
                 {"distances": obs, "shape_ok": shape_ok}, term, repro, kind)
 
 
 def gen_meddist(vd, rnd, tier, cases):
     nclouds = 48 if tier == "quick" else 160
     for c in range(nclouds):
-        mode = ["jitter", "lattice", "uniform", "far"][c % 4]
+        mode = ["jitter", "lattice", "uniform", "far", "int"][c % 5]
         n = rnd.choice([2, 3, 4, 5, 6, 8, 9, 12, 16]) if c % 12 else rnd.choice([20, 30])
         e, nn = cloud(rnd, n, mode)
         if n > 12 or c % 4 == 2:
@@ -207,7 +321,7 @@ def gen_meddist(vd, rnd, tier, cases):
         # one case for the odd k, one for the even k (the keys of every point are sorted once per case)
         for sub, tag in ((ks[0::2], "odd"), (ks[1::2], "even")):
             if sub:
-                cases.append(meddist_case(vd, e, nn, sub, pname, "median_distance-%s-%s" % (mode, tag), extra=(c % 5 == 0)))
+                cases.append(meddist_case(vd, e, nn, sub, pname, "median_distance-%s-%s" % (mode, tag), extra=(c % 5 == 0), rnd=rnd))
     # regular grid of the docstring: corners see [1, 1, sqrt 2, 2]
     g = vd.grid_coordinates((5, 10, -20, -17), spacing=1)
     cases.append(meddist_case(vd, g[0], g[1], [1, 2, 3, 4, 5, 8], None, "median_distance-grid"))
@@ -227,9 +341,17 @@ def aff_fn(c):
     return lambda e, n: (c[0] * e + c[1], c[2] * n + c[3])
 
 
-def mask_case(vd, de, dn, md, qe, qn, pname, kind, extra=False, scalar_data=False):
-    dcoords = (de, dn) + ((np.zeros_like(de),) if extra else ())
-    qcoords = (qe, qn) + ((np.zeros_like(qe) + 1.0,) if extra else ())
+def mask_case(vd, de, dn, md, qe, qn, pname, kind, extra=False, scalar_data=False, rnd=None, qtags=None):
+    tags = {"data": ["nd", "nd"], "query": ["nd", "nd"]}
+    ade, adn, aqe, aqn = de, dn, qe, qn
+    if qtags is not None:
+        tags["query"] = list(qtags)
+        aqe, aqn = mk(qe, qtags[0]), mk(qn, qtags[1])
+    if rnd is not None:
+        (ade, adn), tags["data"] = presentall(rnd, (de, dn), ("layout", "series", "list", "dtype"))
+        (aqe, aqn), tags["query"] = presentall(rnd, (qe, qn), ("layout", "series", "dtype"))
+    dcoords = (ade, adn) + ((np.zeros(np.shape(de)),) if extra else ())
+    qcoords = (aqe, aqn) + ((np.zeros(np.shape(qe)) + 1.0,) if extra else ())
     if scalar_data:
         dcoords = (float(de[0]), float(dn[0]))
     if pname is None:
@@ -240,9 +362,10 @@ def mask_case(vd, de, dn, md, qe, qn, pname, kind, extra=False, scalar_data=Fals
         cproj = "(affine %s %s %s %s)" % tuple(cD(x) for x in AFF[pname])
         pde, pdn, pqe, pqn = de, dn, qe, qn
     else:
+        # the projection sees what n_1d_arrays makes of the arguments (dtype kept): apply it to exactly that
         proj, cproj = PROJ[pname], "ident"
-        pde, pdn = proj(np.ravel(de), np.ravel(dn))
-        pqe, pqn = proj(np.ravel(qe), np.ravel(qn))
+        pde, pdn = proj(rav(ade), rav(adn))
+        pqe, pqn = proj(rav(aqe), rav(aqn))
     try:
         out = np.asarray(vd.distance_mask(dcoords, md, coordinates=qcoords, projection=proj))
         shape_ok = out.shape == np.shape(qe) and out.dtype == bool
@@ -251,10 +374,12 @@ def mask_case(vd, de, dn, md, qe, qn, pname, kind, extra=False, scalar_data=Fals
     except Exception as ex:  # noqa
         shape_ok, obs, cobs = False, "%s: %s" % (type(ex).__name__, ex), "None"
     term = "c15_mask %s %s %s %s %s %s %s %s" % (cproj, cD(md), dl(pde), dl(pdn), dl(pqe), dl(pqn), cbool(shape_ok), cobs)
-    repro = "import verde, numpy as np; print(verde.distance_mask((np.array(%r), np.array(%r)), %r, coordinates=(np.array(%r), np.array(%r))))  # projection: %s" % (
-        fl(de), fl(dn), md, fl(qe), fl(qn), pname)
+    repro = ("import verde; from harness.c15 import mk, PROJ, AFF, aff_fn\n"
+             "p=%r; proj=None if p is None else (aff_fn(AFF[p]) if p in AFF else PROJ[p])\n"
+             "print(verde.distance_mask((mk(%r, %r), mk(%r, %r)), %r, coordinates=(mk(%r, %r), mk(%r, %r)), projection=proj))" % (
+                 pname, fl(de), tags["data"][0], fl(dn), tags["data"][1], md, fl(qe), tags["query"][0], fl(qn), tags["query"][1]))
     return Case({"fn": "distance_mask", "maxdist": md, "data_easting": fl(de), "data_northing": fl(dn), "easting": fl(qe), "northing": fl(qn),
-                 "projection": pname, "extra_coords": extra, "scalar_data": scalar_data},
+                 "projection": pname, "extra_coords": extra, "scalar_data": scalar_data, "presentation": tags},
                 {"mask": obs, "shape_ok": shape_ok}, term, repro, kind)
 
 
@@ -282,7 +407,8 @@ def gen_mask(vd, rnd, tier, cases):
     qn = np.array([4.0, 3.0, 0.0, -5.0, 4.5, 3.5, 8.0, 0.0])
     for md in (5.0, 4.999, 5.001, 10.0, 0.0, -1.0, 4.5, float(np.nextafter(5.0, 0)), float(np.nextafter(5.0, 9))):
         cases.append(mask_case(vd, de, dn, md, qe, qn, None, "mask-345"))
-        cases.append(mask_case(vd, de, dn, md, qe.reshape(2, 4), qn.reshape(2, 4), None, "mask-345"))
+        cases.append(mask_case(vd, de, dn, md, qe.reshape(2, 4), qn.reshape(2, 4), None, "mask-345", rnd=rnd))
+        cases.append(mask_case(vd, de, dn, md, qe.reshape(2, 4), qn.reshape(2, 4), None, "mask-345-layout", qtags=("layout:1", "layout:2")))
     cases.append(mask_case(vd, np.array([2.5]), np.array([-7.5]), 2.0, *vd.grid_coordinates((0, 5, -10, -4), spacing=1), None,
                            "mask-docstring", scalar_data=True))
     nl = 60 if tier == "quick" else 240
@@ -303,7 +429,7 @@ def gen_mask(vd, rnd, tier, cases):
             md = rnd.choice(exactp) if exactp else md
         if c % 2 and qe.size > 1:
             qe, qn = reshape2(rnd, qe, qn)
-        cases.append(mask_case(vd, de, dn, md, qe, qn, pname, "mask-lattice" + ("" if pname is None else "-affine"), extra=(c % 7 == 0)))
+        cases.append(mask_case(vd, de, dn, md, qe, qn, pname, "mask-lattice" + ("" if pname is None else "-affine"), extra=(c % 7 == 0), rnd=rnd))
     nr = 40 if tier == "quick" else 130
     for c in range(nr):
         mode = ["uniform", "jitter", "far"][c % 3]
@@ -317,27 +443,35 @@ def gen_mask(vd, rnd, tier, cases):
                          float(np.hypot(qe[0] - de[0], qn[0] - dn[0]))])      # attained up to rounding: near tie, excluded
         if c % 2 and qe.size > 1:
             qe, qn = reshape2(rnd, qe, qn)
-        cases.append(mask_case(vd, de, dn, md, qe, qn, pname, "mask-" + mode + ("" if pname is None else "-proj"), extra=(c % 5 == 0)))
+        cases.append(mask_case(vd, de, dn, md, qe, qn, pname, "mask-" + mode + ("" if pname is None else "-proj"), extra=(c % 5 == 0), rnd=rnd))
 
 
 # ---------------------------------------------------------------------------
 # distance_mask, grid form
 # ---------------------------------------------------------------------------
-def grid_case(vd, de, dn, md, east, north, pname, dims, kind, twovars=False):
+def grid_case(vd, de, dn, md, east, north, pname, dims, kind, twovars=False, rnd=None):
     import xarray as xr
     nn, ne = len(north), len(east)
     vals = np.arange(1.0, nn * ne + 1).reshape(nn, ne)
-    data_vars = {"scalars": (list(dims), vals.copy())}
+    tags = {}
+    ade, adn, aeast, anorth, avals = de, dn, east, north, vals.copy()
+    mesh = np.meshgrid(east, north)
+    if rnd is not None:
+        (ade, adn), tags["data"] = presentall(rnd, (de, dn), ("layout", "series", "list", "dtype"))
+        (aeast, anorth), tags["grid_coords"] = presentall(rnd, (east, north), ("layout", "dtype"))
+        (avals,), tags["grid_values"] = presentall(rnd, (vals,), ("layout",))
+        mesh, tags["array_form_coords"] = presentall(rnd, mesh, ("layout", "dtype"))
+    data_vars = {"scalars": (list(dims), avals)}
     if twovars:
         data_vars["other"] = (list(dims), -vals)
-    grid = xr.Dataset(data_vars, coords={dims[1]: east, dims[0]: north})
+    grid = xr.Dataset(data_vars, coords={dims[1]: aeast, dims[0]: anorth})
     if pname is None:
         proj, cproj = None, "ident"
     else:
         proj = aff_fn(AFF[pname])
         cproj = "(affine %s %s %s %s)" % tuple(cD(x) for x in AFF[pname])
     try:
-        masked = vd.distance_mask((de, dn), md, grid=grid, projection=proj)
+        masked = vd.distance_mask((ade, adn), md, grid=grid, projection=proj)
         out = np.asarray(masked.scalars.values, dtype=float)
         shape_ok = out.shape == (nn, ne) and list(masked.scalars.dims) == list(dims)
         if twovars:
@@ -349,7 +483,7 @@ def grid_case(vd, de, dn, md, east, north, pname, dims, kind, twovars=False):
     except Exception as ex:  # noqa
         shape_ok, obs, cgrid = False, "%s: %s" % (type(ex).__name__, ex), "None"
     try:
-        arr = np.asarray(vd.distance_mask((de, dn), md, coordinates=np.meshgrid(east, north), projection=proj))
+        arr = np.asarray(vd.distance_mask((ade, adn), md, coordinates=tuple(mesh), projection=proj))
         shape_ok = shape_ok and arr.shape == (nn, ne)
         oarr = [bool(b) for b in arr.ravel()]
         carr = "(Some %s)" % bl(arr)
@@ -360,8 +494,10 @@ def grid_case(vd, de, dn, md, east, north, pname, dims, kind, twovars=False):
              "g=xr.Dataset({'scalars': (%r, np.arange(1.0, e.size*n.size+1).reshape(n.size, e.size))}, coords={%r: e, %r: n}); "
              "print(verde.distance_mask((np.array(%r), np.array(%r)), %r, grid=g).scalars.values)  # projection: %s"
              % (fl(east), fl(north), list(dims), dims[1], dims[0], fl(de), fl(dn), md, pname))
+    if tags:
+        repro += "\n# presentations (harness.c15.mk): %r; array form called on mk(np.meshgrid(e, n)[i], tag_i)" % (tags,)
     return Case({"fn": "distance_mask(grid=)", "maxdist": md, "data_easting": fl(de), "data_northing": fl(dn), "grid_easting": fl(east),
-                 "grid_northing": fl(north), "dims": list(dims), "projection": pname, "two_vars": twovars},
+                 "grid_northing": fl(north), "dims": list(dims), "projection": pname, "two_vars": twovars, "presentation": tags},
                 {"grid_values": obs, "array_form": oarr, "shape_ok": shape_ok}, term, repro, kind)
 
 
@@ -392,7 +528,7 @@ def gen_grid(vd, rnd, tier, cases):
         if pname is not None:
             md = md * rnd.choice([1, 2])
         cases.append(grid_case(vd, de, dn, float(md), east.astype(float), north.astype(float), pname, dimnames[c % len(dimnames)],
-                               "mask-grid" + ("-square" if nn == ne else "") + ("" if pname is None else "-affine"), twovars=(c % 6 == 0)))
+                               "mask-grid" + ("-square" if nn == ne else "") + ("" if pname is None else "-affine"), twovars=(c % 6 == 0), rnd=rnd))
     # the docstring example
     coords = vd.grid_coordinates((0, 5, -10, -4), spacing=1)
     cases.append(grid_case(vd, np.array([3.5]), np.array([-7.5]), 2.0, coords[0][0, :], coords[1][:, 0], None, ("northing", "easting"), "mask-grid-docstring"))
